@@ -40,7 +40,9 @@ MANIFEST = dict(
           "for each dataset several TLC-generated layout histories (batching, flush, rotate, restart, promotion) x configuration "
           "variants (PQS on/off, aggregations flag, GOMAXPROCS 1/2/16, dictionary vs plain blocks via per-block cardinality) are "
           "built through sigdrv; a fixed query family (filters, wildcard, free text, boolean combinations, stats by group, head, "
-          "sort, one presence query per value/word) must give equal answers on all layouts and equal a python reference."),
+          "sort, pre-aggregated vs raw statistics on a column mixing ints and floats, range filters on a column mixing "
+          "numbers and numeric strings, one presence query per value/word) must give equal answers on all layouts and "
+          "equal a python reference."),
     note=("Datasets are small (<= 8 abstract events x multiplicity up to 300) and typed cleanly except for two dedicated "
           "mixed-type datasets; the reference evaluator covers the filter/wildcard/free-text forms whose semantics were "
           "established empirically and count/sum/min/max/avg on fully populated columns; other answers are only compared "
@@ -60,10 +62,11 @@ GROUPS = ["a", "B", "c c"]
 class Dataset:
     """Concrete events for the abstract events of a history group (identical for every layout of the dataset)."""
 
-    def __init__(self, classes, xtab, ttab, mult, mixed=False, mtab=None):
+    def __init__(self, classes, xtab, ttab, mult, mixed=False, mtab=None, xstab=None):
         self.classes = classes          # aid (1-based) -> class name
         self.mult, self.mixed = mult, mixed
         self.has_m = mtab is not None
+        self.has_ns = xstab is not None
         self.events = {}                # aid -> [event dict]
         self.all = []
         n = 0
@@ -73,6 +76,11 @@ class Dataset:
             for j in range(mult):
                 e = {"id": "q%d_%d" % (aid, j), "timestamp": T0 + n * 10}
                 cx, ct = xtab[cls], ttab[cls]
+                if cx and xstab is not None:
+                    # the same number as x, written as a numeric string by the classes the spec marks (ClassXS): a
+                    # column mixing JSON numbers and numeric strings, converted + re-indexed per block at flush
+                    v = cx[0] * (1 + j % 4)
+                    e["ns"] = str(v) if xstab[cls] else v
                 if cx:
                     e["x"] = cx[0] * (1 + j % 4)
                     e["f"] = cx[0] * 0.25 * (1 + j % 5)
@@ -156,6 +164,24 @@ def build_family(ds):
         ids("%s_%s_%s" % (col, {"=": "eq", "!=": "ne", "<": "lt", ">": "gt", "<=": "le", ">=": "ge"}[op], str(lit).replace("-", "m")),
             "%s%s%s" % (col, op, lit), ref_cmp(col, op, lit),
             key="num_ne_with_events_lacking_the_column" if op == "!=" and lacks(col) else None)
+    if ds.has_ns:
+        def nsval(e):
+            return None if "ns" not in e else float(e["ns"])
+
+        def ref_ns(op, lit):
+            def f(e):
+                v = nsval(e)
+                if v is None:
+                    return op == "!="
+                return {"=": v == lit, "!=": v != lit, "<": v < lit, ">": v > lit, "<=": v <= lit, ">=": v >= lit}[op]
+            return f
+        nskey = lambda op: "num_ne_with_events_lacking_the_column" if op == "!=" and lacks("ns") else None
+        for op, lit in (("<", 0), (">", 0), ("<", -1), (">", 1), ("<=", -2), (">=", 2), ("=", -1), ("=", 1), ("=", -3), ("=", 4),
+                        ("!=", 1), ("<", 3), (">", -3)):
+            ids("ns_%s_%s" % ({"=": "eq", "!=": "ne", "<": "lt", ">": "gt", "<=": "le", ">=": "ge"}[op], str(lit).replace("-", "m")),
+                "ns%s%s" % (op, lit), ref_ns(op, lit), key=nskey(op))
+        for v in sorted({nsval(e) for e in ds.all if "ns" in e}):
+            ids("has_ns_%s" % str(int(v)).replace("-", "m"), "ns=%d" % v, ref_ns("=", v), promote=False)
     # '!=' on the sparse column: events without s satisfy it
     ids("s_ne_sparse", "s!=400", ref_cmp("s", "!=", 400), key="num_ne_with_events_lacking_the_column")
     ids("g_eq_a", "g=a", ref_streq("g", "a"))
@@ -473,7 +499,7 @@ def plan_cases(chk, behs_enum, behs_sim, quick):
                 v["promote_after"] = firstflush
                 steps = pqs_steps(steps, firstflush)
             lays.append(dict(steps=steps, name="H%d" % i, spec_layout=b["steps"][-1]["obs"]["ix"]["lay"], **v))
-        cases.append(dict(idx=len(cases), classes=classes_of(picks[0]), x=picks[0]["x"], t=picks[0]["t"], m=picks[0].get("m"), mult=mult, mixed=mixed,
+        cases.append(dict(idx=len(cases), classes=classes_of(picks[0]), x=picks[0]["x"], t=picks[0]["t"], m=picks[0].get("m"), xs=picks[0].get("xs"), mult=mult, mixed=mixed,
                           layouts=lays, src="enum"))
     sims = [b for b in behs_sim if final_complete(b) and _nevents(b) >= 4]
     for ci, b in enumerate(vlib.sample(sims, n_sim, chk.seed)):
@@ -485,13 +511,13 @@ def plan_cases(chk, behs_enum, behs_sim, quick):
             if v["pqs"] and steps[-1]["act"]["a"] != "rotate":
                 steps.append({"act": {"a": "rotate"}})
             lays.append(dict(steps=steps, name="S%d" % i, spec_layout=b["steps"][-1]["obs"]["ix"]["lay"], **v))
-        cases.append(dict(idx=len(cases), classes=cl, x=b["x"], t=b["t"], m=b.get("m"), mult=[150, 2, 1, 90][ci % 4], mixed=ci % 4 == 3, layouts=lays,
+        cases.append(dict(idx=len(cases), classes=cl, x=b["x"], t=b["t"], m=b.get("m"), xs=b.get("xs"), mult=[150, 2, 1, 90][ci % 4], mixed=ci % 4 == 3, layouts=lays,
                           src="sim"))
     return cases
 
 
 def run_case(binary, case):
-    ds = Dataset({int(k): v for k, v in case["classes"].items()}, case["x"], case["t"], case["mult"], case["mixed"], case.get("m"))
+    ds = Dataset({int(k): v for k, v in case["classes"].items()}, case["x"], case["t"], case["mult"], case["mixed"], case.get("m"), case.get("xs"))
     fam = build_family(ds)
     res = [run_layout(binary, ds, fam, lay) for lay in case["layouts"]]
     fails = []
